@@ -7,6 +7,7 @@ import (
 	"net"
 	"net/http"
 	"net/url"
+	"testing/synctest"
 	"time"
 
 	pscrape "github.com/prometheus/prometheus/scrape"
@@ -252,7 +253,54 @@ func c13Bubble(tp *core.Tape, e *core.Env) (ops []string) {
 	for i := 0; i < nScr && !e.Failed(); i++ {
 		h, job := pickTarget()
 		payload, gz := payloadFor()
-		switch tp.Weighted("kind", 3, 2, 2, 2, 3, 2, 1, 1) {
+		switch tp.Weighted("kind", 3, 2, 2, 2, 3, 2, 1, 1, 2) {
+		case 8: // the scrape is in flight while the coordinator updates the targets (keeping this one)
+			if _, assigned := jobOf[h]; !assigned {
+				continue
+			}
+			failing := tp.Bool("overlap_fails", 2, 3)
+			spec := &sidecarsim.TargetSpec{Payload: payload, Gzip: gz}
+			if failing {
+				spec.Fail, spec.Status = "status", 500
+			}
+			n.Targets.Set(TargetHost(h), spec)
+			hold := n.Targets.HoldNext(TargetHost(h))
+			var v *clientView
+			done := make(chan struct{})
+			go func() { defer close(done); v = pc.Get(ScrapeURLFor(h, job)) }()
+			synctest.Wait()
+			if err := n.SC.PostTargets(&shard.UpdateTargetsRequest{Targets: req}); err != nil {
+				e.Undecided("POST targets: %v", err)
+				close(hold)
+				<-done
+				return
+			}
+			close(hold)
+			<-done
+			st, _ := n.SC.GetStatus()
+			counters[h]++
+			e.Probe("scrape_overlapped_update")
+			e.Key("overlapping-update", fmt.Sprintf("fails=%v", failing))
+			ops = append(ops, fmt.Sprintf("overlap target=%d fails=%v -> status=%d", h, failing, v.Status))
+			e.Logf("scrape %d in flight during a target update, fails=%v -> %d", h, failing, v.Status)
+			g := st[h]
+			if g == nil {
+				e.Violate("status-entry-lost", "", "target %d lost its status entry", h)
+				return
+			}
+			if g.ScrapeTimes != counters[h] {
+				e.Violate("counter", "stage=overlapping-update", "target %d: a scrape that was in flight while the targets were updated is not counted (%d, expected %d)", h, g.ScrapeTimes, counters[h])
+				counters[h] = g.ScrapeTimes
+			}
+			if failing && (g.Health != pscrape.HealthBad || g.LastError == "") {
+				e.Violate("health-not-down", "stage=overlapping-update", "target %d: a scrape in flight during a target update failed (HTTP 500) but the status shows health %q, error %q", h, g.Health, g.LastError)
+			}
+			if !failing && g.Health != pscrape.HealthGood {
+				e.Violate("health-not-up", "stage=overlapping-update", "target %d: a scrape in flight during a target update succeeded but the status shows health %q", h, g.Health)
+			}
+			if failing && v.Complete {
+				e.Violate("complete-200-on-failure", "stage=overlapping-update", "failed scrape delivered as a complete 200")
+			}
 		case 0:
 			one(h, job, &sidecarsim.TargetSpec{Payload: payload, Gzip: gz, Chunks: []int{1 + tp.Choose("chunk", 64)}}, false, "ok")
 		case 1:
